@@ -25,7 +25,7 @@ CHECKS = {
     "C09": ("round-trip twins through parser_v2 + 80-column grammar and record automaton on every write_pdb result", "4.C09",
             "Four write/read paths per table compared field by field with the abstract table; every written PDB document is parsed by an independent column grammar and a record-sequence automaton; a third of the round trips use the other documented input/output object kinds (StringIO, text/binary handles, paths); serial numbers restarting per model; more than 65 536 atom lines; blank chain ids on both paths that start from PDB."),
     "C10": ("contract on fit_to_pdb + independent feasibility test + bijection check + write/read back", "4.C10",
-            "Tables within and beyond PDB limits (incl. >62 chains, >9999 residues per chain, >99999 atoms in thorough, residues with non-contiguous records, derived/subset frames) are fitted; result judged for limits, field preservation, one-to-one renaming, refusal iff infeasible, and survival of write_pdb/parse_pdb_atoms; chain names that are runs of consecutive one-character ids (AB, Za, 12); atoms without any chain id; the splitter tool writing an ensemble whose later models pass the serial limit."),
+            "Tables within and beyond PDB limits (incl. >62 chains, >9999 residues per chain, >99999 atoms in thorough, residues with non-contiguous records, derived/subset frames) are fitted; result judged for limits, field preservation, one-to-one renaming, refusal iff infeasible, and survival of write_pdb/parse_pdb_atoms; chain names that are runs of consecutive one-character ids (AB, Za, 12); atoms without any chain id; the splitter tool writing an ensemble whose later models pass the serial limit; tables with only one of the optional author name items."),
     "C11": ("contracts on find_pairs/find_stackings + frozen Saenger/Zirbel tables + re-read CSV/JSON", "4.C11",
             "Well-formedness clauses (duplicates, self, membership, orientation, sortedness, Saenger, BPh/BR donor contact and class, one class per pair) judged on every observed annotation including all NMR models, crowded structures and nucleotides listed in two parts; CSV/JSON written onto paths that already hold another result; chain names whose order depends on letter case; annotations imported from FR3D listings (short and nine-field unit ids, insertion codes) judged for participants, self-joins and repeats."),
     "C12": ("recorded call histories on object pools checked step by step against a fresh-object model", "4.C12",
